@@ -437,3 +437,21 @@ Proof.
   { apply (f_equal sf_hashed) in E. cbn in E. rewrite E. reflexivity. }
   rewrite L. rewrite L in C'. exact C'.
 Qed.
+
+(* ---------- C01: a signature naming another key is never examined, hence never good ---------- *)
+Lemma examined_iff ids issuer : examined ids issuer = true <-> In issuer ids.
+Proof.
+  unfold examined. rewrite existsb_exists. split.
+  - intros [x [Hin Hx]]. apply eqb_bytes_eq in Hx. subst. exact Hin.
+  - intros H. exists issuer. split; [exact H|apply eqb_bytes_refl].
+Qed.
+
+Theorem wrong_key_never_examined pk_verify pub ids issues fails issuer s subj :
+  ~ In issuer ids -> verify_explicit pk_verify pub ids issues fails issuer s subj = None.
+Proof.
+  intros H. unfold verify_explicit. destruct (examined ids issuer) eqn:E; [|reflexivity].
+  apply examined_iff in E. contradiction.
+Qed.
+
+Theorem filter_sigs_sound {A} ids (sigs : list (bytes * A)) s : In s (filter_sigs ids sigs) <-> In s sigs /\ In (fst s) ids.
+Proof. unfold filter_sigs. rewrite filter_In. rewrite examined_iff. tauto. Qed.
